@@ -133,6 +133,10 @@ def run_C15(ctx):
     tf = core.run_runner(ctx, "e2e", [dict(s, transport="mem") for s in sc], tag="ctxcodes")
     acc, rej = core.validate(ctx, "TraceWire", tf, tag="ctxcodes", sigfn=p_wire.sig(ctx.prop))
     core.judge(ctx, rej)
+    # ... and the bare ctx.Err() itself, the context having ended through the timeout header of a peer that does not
+    # enforce it, or through the server cancelling the request
+    from . import p_scalars
+    p_scalars.scalars(ctx, {"handler_ctx"}, [])
     return run_call(ctx, True)
 
 
